@@ -111,7 +111,7 @@ theorem resolve_congr_lookup (v : Value) (t1 t2 : SymTab) (h : ∀ k, t1.get? k 
 
 /-- the Python int `calculate_address_offset` computes from the statement address `a` and the constant `k` -/
 def addrArith (op : Char) (a k : Nat) : Option Int :=
-  if op == '+' then some ((a : Int) + k) else if op == '-' then some ((a : Int) - k)
+  if op == '+' then some ((a : Int) + k) else if op == '-' then some (((a : Int) - k) % 65536)
   else if op == '*' then some ((a : Int) * k) else (if k = 0 then none else some ((a / k : Nat) : Int))
 
 /-- `NumericValue(z, size_hint=4, mode=EXTENDED)`; a value that does not fit is reported as a
